@@ -6,7 +6,7 @@ integers into the concrete penman structures.
 
 from __future__ import annotations
 
-from vflib.engine import assume, bound_int
+from vflib.engine import assume, bound_int, case
 
 VARS = ['a', 'b', 'c', 'd', 'e']
 
@@ -45,6 +45,7 @@ def tree_program(sym, n_items, roles, atoms, concepts, prefix='i',
     c0 = sym['c0']
     in_range(c0, len(concepts))
     root = (names[0], [])
+    case(root)
     con = pick(c0, concepts)
     if con is not NO_CONCEPT:
         root[1].append(('/', con))
@@ -113,6 +114,7 @@ def graph_program(sym, nv, n_extra, roles, consts, concepts):
     the variables and *consts*; then a symbolic permutation (insertion
     positions) of the whole triple list and a symbolic top."""
     triples = []
+    case(triples)
     for v in range(nv):
         ci = sym[f'c{v}']
         in_range(ci, len(concepts))
